@@ -119,9 +119,23 @@ impl<'a> Obs<'a> {
         let mut l = self.local.borrow_mut();
         let have = l.samples.iter().filter(|(c, _)| c == class).count();
         if have < MAX_SAMPLES_PER_LABEL_PER_JOB {
-            let v = make();
+            let mut v = make();
+            abbreviate(&mut v);
             l.samples.push((class.to_string(), v));
         }
+    }
+}
+
+/// evidence samples are illustrations: strings longer than 400 characters are cut (replay files keep everything)
+fn abbreviate(v: &mut Value) {
+    match v {
+        Value::String(s) if s.chars().count() > 400 => {
+            let head: String = s.chars().take(200).collect();
+            *s = format!("{}…(+{} characters)", head, s.chars().count() - 200);
+        }
+        Value::Array(a) => a.iter_mut().for_each(abbreviate),
+        Value::Object(o) => o.values_mut().for_each(abbreviate),
+        _ => {}
     }
 }
 
